@@ -441,11 +441,12 @@ class NestedHeadMutation(Case):
     stubs = ("np.random of agilerl.modules.mlp -> arbitrary draws", "the head MLP's recreate_network = recorder in the symbolic modes (its width is a proxy); real rebuild + forward in replay/validation")
     assumptions = ("min_mlp_nodes <= width <= max_mlp_nodes, min < max, numb_new_nodes >= 1",)
 
-    def __init__(self, kind, method):
-        self.kind, self.method = kind, method
-        self.name = f"nested-head-{kind}-{method}"
+    def __init__(self, kind, method, after_latent=False):
+        self.kind, self.method, self.after_latent = kind, method, after_latent
+        self.name = f"nested-head-{kind}-{method}" + ("-after-latent-mutation" if after_latent else "")
         self.site = f"{kind}/head_net.{method}"
-        self.bounds = {"network": kind, "method": f"head_net.{method}", "symbolic": "head width, min/max nodes, numb_new_nodes"}
+        self.bounds = {"network": kind, "method": f"head_net.{method}", "history": "a latent-dimension mutation of the same instance first (recreate_network has replaced the head)" if after_latent else "fresh",
+                       "symbolic": "head width, min/max nodes, numb_new_nodes"}
         self._tmpl = None
 
     def build(self, h=4, mn=2, mx=16):
@@ -466,21 +467,25 @@ class NestedHeadMutation(Case):
             if v.mode == "real":
                 net = self.build(h, mn, mx)
             else:
-                if self._tmpl is None:
-                    self._tmpl = self.build()
-                net = self._tmpl
+                net = self.build() if self.after_latent else (self._tmpl or self.build())
+                if not self.after_latent:
+                    self._tmpl = net
         except AssertionError as ex:
             raise AssumptionFailed(f"constructor rejects the configuration: {ex}")
+        old_mlp = getattr(net.head_net, "wrapped", net.head_net)
+        if self.after_latent:
+            net.add_latent_node(numb_new_nodes=1)          # real: recreate_network replaces encoder and head
         mlp = getattr(net.head_net, "wrapped", net.head_net)
         require(mlp, "hidden_size", "min_mlp_nodes", "max_mlp_nodes", "recreate_network")
         if v.mode != "real":
-            mlp.hidden_size = [h]
+            mlp.hidden_size[:] = [h]           # in place: a replaced head shares this list with its successor, as in a real run
             mlp.min_mlp_nodes, mlp.max_mlp_nodes = mn, mx
             rec = Counting()
         else:
             rec = Counting(mlp.recreate_network)
         net.last_mutation_attr = None
-        with patched((mlp_mod, "np", ShimNumpy({"random": Rng(v)})), (mlp, "recreate_network", rec)):
+        extra = [(old_mlp, "recreate_network", Counting())] if (old_mlp is not mlp and v.mode != "real") else []      # (a call that reaches the replaced module must not rebuild it with proxies)
+        with patched((mlp_mod, "np", ShimNumpy({"random": Rng(v)})), (mlp, "recreate_network", rec), *extra):
             getattr(net, f"head_net.{self.method}")(hidden_layer=0, numb_new_nodes=n)
         post = list(mlp.hidden_size)
         add = self.method == "add_node"
@@ -489,11 +494,11 @@ class NestedHeadMutation(Case):
         res = [Ob("head-keeps-one-layer", len(post) == 1)]
         if len(post) != 1:
             return res
+        res.append(Ob("the-live-head-is-rebuilt-exactly-once", len(rec.calls) == 1, site=self.site + "/effect"))
+        res.append(Ob("the-network-records-the-method-applied", net.last_mutation_attr == f"head_net.{self.method}", site=self.site + "/bookkeeping"))
         res.append(Ob("applied-exactly-when-strictly-inside-the-bound", disj(neg(inside), eq(post[0], new)), site=self.site + "/effect"))
         res.append(Ob("width-is-old-or-advertised-new", disj(eq(post[0], h), eq(post[0], new)), site=self.site + "/effect"))
         res.append(Ob("width-within-bounds", conj(post[0] >= mn, post[0] <= mx), site=self.site + "/bounds"))
-        res.append(Ob("the-head-is-rebuilt-exactly-once", len(rec.calls) == 1, site=self.site + "/effect"))
-        res.append(Ob("the-network-records-the-method-applied", net.last_mutation_attr == f"head_net.{self.method}", site=self.site + "/bookkeeping"))
         res.append(Ob("network-rebuilds-and-maps-a-batch-to-finite-outputs-of-its-shape", forward_ok_first(net, torch.zeros(3, 2)) if v.mode == "real" else True, site=self.site + "/rebuild"))
         return res
 
@@ -519,7 +524,7 @@ def cases(tier):
            LatentMutation("remove_latent_node", False)]
     cs += [LatentRebuild("add_latent_node", True), LatentRebuild("remove_latent_node", True), LatentRebuild("add_latent_node", False)]
     cs += [NestedHeadMutation("StochasticActor", "add_node"), NestedHeadMutation("StochasticActor", "remove_node"), NestedHeadMutation("DeterministicActor", "add_node"),
-           NestedHeadMutation("QNetwork", "remove_node")]
+           NestedHeadMutation("QNetwork", "remove_node"), NestedHeadMutation("QNetwork", "add_node", after_latent=True), NestedHeadMutation("StochasticActor", "add_node", after_latent=True)]
     if tier == "thorough":
         for meth in ("add_layer", "remove_layer", "add_node", "remove_node"):
             cs += [MLPMutation(meth, 3, False)]
